@@ -38,6 +38,13 @@ def Sample.empty : Sample α := ⟨zero, [], none⟩
 def replaceContent (item : Nat) (theta : α) : Sample α :=
   if Num.eq theta one then ⟨theta, [item], none⟩ else ⟨theta, [], some item⟩
 
+/-- `replace_content` with the proposed clamp (proposed_fixes/C18-merge-rounding.patch): `c_ = std::min(theta, 1.0)` and
+`theta >= 1.0` makes a full item. `clamp = false` is the pinned code. -/
+def replaceContentV (clamp : Bool) (item : Nat) (theta : α) : Sample α :=
+  if clamp then
+    (if Num.le one theta then ⟨cmin theta one, [item], none⟩ else ⟨cmin theta one, [], some item⟩)
+  else replaceContent item theta
+
 /-- items a `get_result` can return -/
 def Sample.items (s : Sample α) : List Nat := s.data ++ s.part.toList
 
@@ -142,5 +149,16 @@ def mergeSample (ge : Bool) (s o : Sample α) (d : Draws α) : Sample α × Draw
       (⟨c, pushOpt data o.part, s.part⟩, d)
     else
       (⟨c, pushOpt data s.part, o.part⟩, d)
+
+/-- `merge(other)` with the proposed guard (proposed_fixes/C18-merge-rounding.patch): when the new `c_` is integral although the
+fractions add up to less than 1/2 (a fraction too small to register in `c_`) nothing fractional remains: the partial items
+are dropped instead of one of them being promoted. `vf = false` is the pinned code. -/
+def mergeSampleV (vf ge : Bool) (s o : Sample α) (d : Draws α) : Sample α × Draws α :=
+  let cFrac := s.c - Num.floor s.c
+  let oFrac := o.c - Num.floor o.c
+  let c := s.c + o.c
+  if vf && Num.eq c (Num.floor c) && Num.lt (cFrac + oFrac) (one / Num.ofNat 2) then
+    (⟨c, s.data ++ o.data, none⟩, d)
+  else mergeSample ge s o d
 
 end DS.Ebpps
